@@ -7,3 +7,7 @@ claim("C02", "Coq proof (nra/lra over R) of the fuzzy-union algebra + vm_compute
       "Theorems C02_graph / C02_support / C02_positive hold for every strength matrix, every r in [0,1], every kNN table; the model term is evaluated in binary64 on the "
       "directed strengths the implementation produced and compared entrywise with the implementation's graph on every run; an independent Python oracle states the property on graph_.",
       STD_NOTE + " SciPy's float32 sparse arithmetic is observed, not modelled.", "DESIGN.md §6 C02")
+claim("C01", "Coq proof over R (order laws of exp-membership, bisection invariant by induction, homogeneity) + vm_compute correspondence of smooth_row/memberships against smooth_knn_dist/compute_membership_strengths",
+      "Theorems C01_strengths, C01_local_connectivity, C01_bandwidth (positive, bounded, floored, tolerance-calibrated when the search stops), C01_psum (monotone total), C01_scale hold for all rows, k, local_connectivity and scales; "
+      "the same Gallina terms run in binary64 on generated kNN tables (ties, duplicates, inf entries, scales 1e-4..1e6) and must reproduce rho and every strength of the implementation; the float64 oracle states the property (incl. calibration to 1e-3 and scale invariance) on the implementation.",
+      STD_NOTE + " Convergence of the 64-step search to the tolerance band is observed (oracle), not proved; rows whose rho would be read from an infinite entry are checked by the oracle only.", "DESIGN.md §6 C01")
